@@ -15,7 +15,7 @@ import random
 import resource
 import tracemalloc
 
-from vsim import steps, world, specgen, shrink, wire
+from vsim import steps, world, specgen, shrink, wire, graph
 from vsim.digest import ProbeSet, first_difference
 from vsim.rng import mix
 from vsim.runner import Engine, Result
@@ -25,6 +25,7 @@ CODECS = ['ber', 'der', 'per', 'uper', 'oer', 'jer', 'xer']
 MEMORY_BASE = 2 * 1024 * 1024
 MEMORY_PER_BYTE = 8 * 1024
 RUN_TICKS = 8000000
+AMPLIFY_ROUNDS = 80
 _RLIMIT_SET = [False]
 
 
@@ -120,6 +121,7 @@ class C08(Engine):
 
         receiver = receiver[1]
         reference = reference[1]
+        pristine, pristine_entries = graph.fingerprint(reference)
         previous = b''
         history = []
         memory = case.get('memory', False)
@@ -246,6 +248,79 @@ class C08(Engine):
                     'delivered': data.hex()[:80],
                     'outcome': canon_outcome(outcome)[:160],
                     'ticks': ticks})
+
+        # The compiled type graph is meant to be read-only.  If the
+        # receiver's is no longer what it was after compile, deliver the
+        # whole traffic several more times (state that only bites after
+        # accumulating), then compare the un-faulted messages again.
+        after, after_entries = graph.fingerprint(receiver)
+
+        if after != pristine and result.ticks <= RUN_TICKS:
+            result.stats['probe-graph-state-changed'] += 1
+            deliveries = []
+            previous = b''
+
+            for type_name, jvalue, fault in history:
+                if fault['kind'] == 'raw':
+                    deliveries.append((type_name, bytes.fromhex(
+                        fault['data']), True))
+                    continue
+
+                outcome, ticks = steps.call(
+                    lambda: reference.encode(type_name, deser(jvalue)),
+                    world.encode_budget())
+
+                if outcome[0] != 'ok':
+                    continue
+
+                data = wire.mutate(outcome[1], fault, previous)
+                deliveries.append((type_name, data,
+                                   fault['kind'] != 'none'
+                                   and data != outcome[1]))
+
+                if fault['kind'] != 'none':
+                    previous = outcome[1]
+
+            mismatch = False
+
+            for round_index in range(AMPLIFY_ROUNDS):
+                if result.ticks > 4 * RUN_TICKS or mismatch:
+                    break
+
+                for type_name, data, faulted in deliveries:
+                    outcome, ticks = steps.call(
+                        lambda: receiver.decode(type_name, data),
+                        world.decode_budget(len(data)))
+                    result.ticks += ticks
+
+                    if faulted or outcome[0] == 'hang':
+                        continue
+
+                    expected, ticks = steps.call(
+                        lambda: reference.decode(type_name, data),
+                        world.decode_budget(len(data)))
+
+                    if canon_outcome(expected) != canon_outcome(outcome):
+                        result.violation(
+                            'state',
+                            {'codec': codec, 'where': 'amplified-replay'},
+                            {'type': type_name, 'replay_round': round_index,
+                             'graph_changes': graph.difference(
+                                 after_entries, pristine_entries),
+                             'got': canon_outcome(outcome)[:300],
+                             'expected': canon_outcome(expected)[:300]},
+                            dict(case, messages=copy.deepcopy(history),
+                                 memory=False))
+                        mismatch = True
+                        break
+
+                if round_index >= 2:
+                    now = graph.fingerprint(receiver)[0]
+
+                    if now == after:
+                        break
+
+                    after = now
 
         # End of run: the receiver must behave like the reference.
         outcome = world.parse(text)
